@@ -4,7 +4,7 @@
   Model of what `flox.core.groupby_reduce` does when `axis` names a subset of the label dims, and of the leading
   (batch) dims of the value array that the labels do not cover:
 
-  (a) metadata: `normalize_axis_tuple`, `_move_reduce_dims_to_end` (order = kept dims ascending ++ axis as given),
+  (a) metadata: `normalize_axis_tuple`, `_move_reduce_dims_to_end` (order = kept dims ascending ++ axis_, which is sorted),
       the `axis_` handed to `chunk_reduce` / `dask_groupby_agg`, result shapes of the eager path
       (`chunk_reduce`: `array.shape[:-nax] + (1,)*(nax-1) + (G,)`, `_squeeze_results`) and of the graph
       (`dask_groupby_agg`: `out_inds = inds[:-len(axis)] + (inds[-1],)`), and the two places where the chunked code
@@ -55,6 +55,12 @@ structure Entry where
   moved : Bool
 deriving Repr, DecidableEq
 
+def insertNat (x : Nat) : List Nat → List Nat
+  | [] => [x]
+  | y :: ys => if x ≤ y then x :: y :: ys else y :: insertNat x ys
+
+def sortNat (xs : List Nat) : List Nat := xs.foldr insertNat []
+
 /-- after normalisation: if `nax < by.ndim` move the reduced dims last (in the order given) and renumber `axis_`
     to the last `nax` dims; otherwise `axis_` stays exactly as the user gave it. -/
 def entryOf (ndim byNdim : Nat) (axes : List Nat) : Entry :=
@@ -66,13 +72,14 @@ def entryOf (ndim byNdim : Nat) (axes : List Nat) : Entry :=
   else
     { order := List.range ndim, byOrder := List.range byNdim, axes := axes, nax := nax, moved := false }
 
-/-- `axis=None` ↦ all label dims; else `normalize_axis_tuple`; axes outside the label dims are outside the
-    property's quantifier (not modelled) -/
+/-- `axis=None` ↦ all label dims; else `tuple(sorted(normalize_axis_tuple(axis, ndim)))` (the order in which the
+    reduced axes are named is dropped right here); axes outside the label dims are outside the property's
+    quantifier (not modelled) -/
 def entry (ndim byNdim : Nat) (axis : Option (List Int)) : Except String Entry :=
   let lead := ndim - byNdim
   let axes? : Option (List Nat) := match axis with
     | none => some ((List.range byNdim).map (· + lead))
-    | some a => normalizeAxes ndim a
+    | some a => (normalizeAxes ndim a).map sortNat
   match axes? with
   | none => .error "ValueError"
   | some axes =>
@@ -91,16 +98,15 @@ inductive Method where
   | mapreduce | cohorts | blockwise
 deriving Repr, DecidableEq
 
-/-- Order-dependent steps of the graph (`dask_groupby_agg`).  `none` = the graph is built and computes.
-    * map-reduce / cohorts with `_simple_combine`: the stacked intermediates have `ndim+1` dims (dummy axis at
-      `-2`, i.e. at `ndim-1`); the combine runs along `axis[:-1] + (-2,)`, which repeats an axis exactly when the
-      last array dim is in `axis` but is not its last entry → `ValueError: duplicate value in 'axis'`.
-    * blockwise with `len(axis) > 1`: `_collapse_blocks_along_axes` announces
-      `chunks[:-nax] + ((1,)*(nax-1),) + group_chunks`, i.e. `ndim - nax + 2` dims, but the next `blockwise` call
-      indexes it with `ndim` indices → `ValueError` unless `nax = 2`. -/
+/-- The order-dependent step of the graph (`dask_groupby_agg`).  `none` = the graph is built and computes.
+    map-reduce / cohorts with `_simple_combine`: the stacked intermediates have `ndim+1` dims (dummy axis at `-2`,
+    i.e. at `ndim-1`); the combine runs along `axis[:-1] + (-2,)`, which repeats an axis exactly when the last array
+    dim is in `axis_` but is not its last entry → `ValueError: duplicate value in 'axis'`.  (Since `axis_` is sorted
+    at the entry this can no longer happen: `C08.chunked_graph_ok`.)  The blockwise plan collapses the blocks of the
+    reduced axes with one dummy axis per extra reduced axis and has no order-dependent step. -/
 def chunkedError (ndim : Nat) (e : Entry) (m : Method) : Option String :=
   match m with
-  | .blockwise => if e.nax > 2 then some "ValueError" else none
+  | .blockwise => none
   | _ => if e.axes.dropLast.contains (ndim - 1) then some "ValueError" else none
 
 /-- announced shape of the lazy result: `out_inds = inds[:-len(axis)] + (inds[-1],)` with the group chunks -/
@@ -260,17 +266,14 @@ def run (rows : List InitRow) (rq : PRequest) (labels : List Key) (vals : List V
       | some vs => .ok (eagerOutShape rq.shape e G) vs
 
 /-- what the model predicts for chunked input, given the method the real code resolved: the error of the
-    order-dependent graph steps, otherwise the eager values (C02/C03: chunked = eager on every slice) with the
-    announced shape.  Unsorted `axis` outside map-reduce is not modelled. -/
+    order-dependent graph step, otherwise the eager values (C02/C03: chunked = eager on every slice) with the
+    announced shape. -/
 def runChunked (rows : List InitRow) (rq : PRequest) (m : Method) (labels : List Key) (vals : List Val) : POutcome :=
   match entry rq.shape.length rq.byNdim rq.axis with
   | .error e => if e.startsWith "unsupported" then .unsupported e else .err e
   | .ok e =>
-    if m ≠ .mapreduce ∧ e.axes ≠ (List.range e.nax).map (· + (rq.shape.length - e.nax)) then .unsupported "unsorted-axis-non-mapreduce"
-    -- the cohorts graph on N-D labels (`subset_to_blocks`) is not modelled here (findings C08-F4/F5; C09's territory)
-    else if m = .cohorts ∧ rq.byNdim ≥ 2 then .unsupported "cohorts-on-nd-labels"
     -- `_grouped_combine` on offset groups (first/last family on data without NaN): not modelled (finding C08-F3)
-    else if e.moved ∧ (rq.func = "nanfirst" ∨ rq.func = "nanlast") ∧ ¬ (rq.dkind = "f8" ∨ rq.dkind = "f4") then
+    if e.moved ∧ (rq.func = "nanfirst" ∨ rq.func = "nanlast") ∧ ¬ (rq.dkind = "f8" ∨ rq.dkind = "f4") then
       .unsupported "grouped-combine-on-offset-groups"
     else match chunkedError rq.shape.length e m with
       | some err => .err err
@@ -286,12 +289,6 @@ def sliceFlatIdx (shape : List Nat) (kept red : List Nat) (kidx : List Nat) : Li
   let st := strides shape
   let base := dot kidx (kept.map fun d => st.getD d 0)
   (allIdx (red.map fun d => shape.getD d 1)).map fun ridx => base + dot ridx (red.map fun d => st.getD d 0)
-
-def insertNat (x : Nat) : List Nat → List Nat
-  | [] => [x]
-  | y :: ys => if x ≤ y then x :: y :: ys else y :: insertNat x ys
-
-def sortNat (xs : List Nat) : List Nat := xs.foldr insertNat []
 
 /-- The property: result shape = kept dims (ascending) ++ [G]; the entry at kept index `i` and group `g` is the
     1-D grouped reduction (`Spec.reduce`) of the slice at `i`; batch dims are kept dims on which the labels do
